@@ -11,7 +11,7 @@ import uuid
 from harness import core, fmt_vhdx
 from harness.core import Z, zlist, cbool
 from harness.main import Finding, Suite
-from harness.props import c03, c05, c06
+from harness.props import c01, c02, c03, c05, c06
 
 PROPERTY = "C12"
 PROPS_FILE = "Props/C12.v"
@@ -260,6 +260,15 @@ class HddGates(MutantSuite):
             out.append({"mut": ["image_type", t], "type": t, "descriptor": True,
                         "must_reject": t not in ("Plain", "Compressed"), "must_accept": t in ("Plain", "Compressed")})
         out.append({"mut": ["no_descriptor"], "type": "Plain", "descriptor": False, "must_reject": True})
+        # split disks: an unsupported type in the second / last storage must be refused as well
+        for t in ("Expanding", "Raw", ""):
+            for pos, n in ((1, 2), (2, 3), (0, 2)):
+                types = ["Compressed"] * n
+                types[pos] = t
+                out.append({"mut": ["image_type_split", t, pos, n], "types": types, "type": t, "descriptor": True,
+                            "must_reject": True})
+        out.append({"mut": ["split_ok"], "types": ["Compressed", "Plain", "Compressed"], "type": "Plain", "descriptor": True,
+                    "must_reject": False, "must_accept": True})
         return out
 
     def impl(self, case):
@@ -271,21 +280,34 @@ class HddGates(MutantSuite):
             os.makedirs(d)
             img = ("<Image><GUID>{5fbaabe3-6958-40ff-92a7-860e329aab41}</GUID><Type>%s</Type><File>x.hds</File></Image>"
                    % case["type"])
-            if case["descriptor"]:
+            if case["descriptor"] and case.get("types"):
+                stor = ""
+                for i, t in enumerate(case["types"]):
+                    stor += ("<Storage><Start>%d</Start><End>%d</End><Blocksize>2048</Blocksize><Image><GUID>"
+                             "{5fbaabe3-6958-40ff-92a7-860e329aab41}</GUID><Type>%s</Type><File>%s</File></Image></Storage>"
+                             % (16 * i, 16 * (i + 1), t, "x.hds" if t != "Plain" else "p.raw"))
+                xml = DESCRIPTOR.format(sectors=16, images=img)
+                a = xml.index("<Storage>")
+                b = xml.index("</StorageData>")
+                with open(os.path.join(d, "DiskDescriptor.xml"), "w") as fh:
+                    fh.write(xml[:a] + stor + xml[b:])
+                with open(os.path.join(d, "p.raw"), "wb") as fh:
+                    fh.write(core.stamp(0, 16 * 512, 3))
+            elif case["descriptor"]:
                 with open(os.path.join(d, "DiskDescriptor.xml"), "w") as fh:
                     fh.write(DESCRIPTOR.format(sectors=16, images=img))
             hcase = {"kind": "v2", "version": 2, "m_sectors": 8, "size": 16 * 512, "bat": [1, 0], "first_block": 8,
                      "file_size": 3 * 4096, "salt": 1}
             sf = c06.SUITES["hds"].build_files(hcase)["file"]
             with open(os.path.join(d, "x.hds"), "wb") as fh:
-                fh.write(sf.content(0, sf.size) if case["type"] != "Plain" else core.stamp(0, 16 * 512, 3))
-            return self.attempt(lambda: HDD(Path(d)).open().read(16).hex())
+                fh.write(sf.content(0, sf.size) if (case["type"] != "Plain" or case.get("types")) else core.stamp(0, 16 * 512, 3))
+            return self.attempt(lambda: HDD(Path(d)).open().read().hex()[:16])
         finally:
             shutil.rmtree(tmp, ignore_errors=True)
 
     def coq_term(self, case):
-        t = {"Compressed": 0, "Plain": 1}.get(case["type"], 2)
-        return f"hdd_gate {cbool(case['descriptor'])} [{t}]"
+        ts = [{"Compressed": 0, "Plain": 1}.get(t, 2) for t in case.get("types", [case["type"]])]
+        return f"hdd_gate {cbool(case['descriptor'])} {zlist(ts)}"
 
 
 # ----------------------------------------------------------------------------- Hyper-V (mutations of the real samples)
@@ -479,5 +501,138 @@ class VmdkSparseGates(MutantSuite):
         return f"vmdk_sparse_gate {zlist(list(bytes.fromhex(case['magic'])))}"
 
 
-SUITES = {"vhdx": VhdxGates(), "vdi": VdiGates(), "hds": HdsGates(), "hdd": HddGates(), "hyperv": HypervGates(),
+class VmdkHostedGates(MutantSuite):
+    """hosted (KDMV, with header- or footer-located grain directory) and COWD extents: header and footer magic"""
+    name = "vmdk_hosted"
+    fmt = "vmdk"
+
+    def generate(self, rng, tier):
+        out = []
+        bases = []
+        for kind, want_footer in (("hosted", True), ("hosted", False), ("cowd", False)):
+            for _ in range(200):
+                c = c02.gen_sparse(rng, "quick", kind)
+                if kind == "cowd" or bool(c.get("footer")) == want_footer:
+                    break
+            c.pop("reqs", None)
+            bases.append(c)
+        for c in bases:
+            kind = c["kind"]
+            magic = b"KDMV" if kind == "hosted" else b"COWD"
+            footer = bool(c.get("footer"))
+            out.append({"base": c, "mut": ["none", kind, footer], "hm": magic.hex(), "fm": magic.hex(), "footer": footer,
+                        "must_reject": False, "must_accept": True})
+            for i, m in bitflips(4):
+                b = bytearray(magic)
+                b[i] ^= m
+                out.append({"base": c, "mut": ["bit", "header", kind, i, m], "hm": bytes(b).hex(), "fm": magic.hex(),
+                            "footer": footer, "must_reject": True})
+                if footer:
+                    out.append({"base": c, "mut": ["bit", "footer", kind, i, m], "hm": magic.hex(), "fm": bytes(b).hex(),
+                                "footer": footer, "must_reject": True})
+        return out
+
+    def impl(self, case):
+        from dissect.hypervisor.disk.vmdk import SparseDisk
+        sf, _ = c02.build_image(case["base"])
+        sf = patched(sf, 0, bytes.fromhex(case["hm"]))
+        if case["footer"]:
+            sf = patched(sf, case["base"]["fsize"] - 1024, bytes.fromhex(case["fm"]))
+
+        def f():
+            d = SparseDisk(sf)
+            return d.read_sectors(0, 1)[:8].hex()
+        return self.attempt(f)
+
+    def coq_term(self, case):
+        return (f"vmdk_footer_gate {zlist(list(bytes.fromhex(case['hm'])))} {cbool(case['footer'])} "
+                f"{zlist(list(bytes.fromhex(case['fm'])))}")
+
+
+class Qcow2Gates(MutantSuite):
+    name = "qcow2"
+    fmt = "qcow2"
+    FIELDS = {"magic": (0, ">I"), "version": (4, ">I"), "backing_file_offset": (8, ">Q"), "cluster_bits": (20, ">I"),
+              "crypt_method": (32, ">I"), "incompatible_features": (72, ">Q"), "header_length": (100, ">I"),
+              "compression_type": (104, ">B")}
+
+    def generate(self, rng, tier):
+        out = []
+        for want in ("v2", "v3", "v3ext"):
+            for _ in range(400):
+                c = c01.gen_case(rng, "quick")
+                lay = c01.layout(c)
+                ok = (c["version"] == 2) if want == "v2" else (c["version"] == 3 and bool(c["ext"]) == (want == "v3ext"))
+                if ok and not c["datafile"] and c["backing"] is None and c["file_size"] < (64 << 20):
+                    break
+            else:
+                continue
+            c.pop("reqs", None)
+            hdr = lay["chunks"][0] if 0 in lay["chunks"] else None
+            out.append({"base": c, "mut": ["none", want], "set": {}, "must_reject": False, "must_accept": True})
+            for i, m in bitflips(4):
+                out.append({"base": c, "mut": ["bit", "magic", want, i, m], "xor": [i, m], "set": {}, "must_reject": True})
+            for v in (0, 1, 4, 5, 65536, 0xFFFFFFFF):
+                out.append({"base": c, "mut": ["version", want, v], "set": {"version": v}, "must_reject": True})
+            for v in (0, 8, 22, 23, 63, 0xFFFFFFFF):
+                out.append({"base": c, "mut": ["cluster_bits", want, v], "set": {"cluster_bits": v}, "must_reject": True})
+            for v in (1, 2, 0xFFFFFFFF):
+                out.append({"base": c, "mut": ["crypt", want, v], "set": {"crypt_method": v}, "must_reject": True})
+            out.append({"base": c, "mut": ["backing_required", want], "set": {"backing_file_offset": 4096}, "must_reject": True})
+            if want != "v2":
+                inc = c01.layout(c)["hdr"]["incompatible_features"] if isinstance(c01.layout(c).get("hdr"), dict) else 0
+                out.append({"base": c, "mut": ["data_file_required", want], "setbit": 4, "set": {}, "must_reject": True})
+                for bit in (5, 6, 17, 40, 63):
+                    out.append({"base": c, "mut": ["unknown_incompat", want, bit], "setbit": 1 << bit, "set": {},
+                                "must_reject": True})
+                for bit in (0, 1):
+                    out.append({"base": c, "mut": ["dirty_or_corrupt", want, bit], "setbit": 1 << bit, "set": {},
+                                "must_reject": False})
+                if want == "v3":
+                    out.append({"base": c, "mut": ["zstd_without_module", want], "setbit": 8,
+                                "set": {"header_length": 112, "compression_type": 1}, "must_reject": True})
+                if want == "v3ext":
+                    for v in (9, 13):
+                        out.append({"base": c, "mut": ["extl2_small_cluster", v], "set": {"cluster_bits": v}, "must_reject": True})
+        return out
+
+    def _header(self, case):
+        lay = c01.layout(case["base"])
+        chunks = dict(lay["chunks"])
+        hdr = bytearray(chunks[0][:112].ljust(112, b"\x00"))
+        if case.get("xor"):
+            hdr[case["xor"][0]] ^= case["xor"][1]
+        for k, v in case["set"].items():
+            off, fmt = self.FIELDS[k]
+            struct.pack_into(fmt, hdr, off, v)
+        if case.get("setbit"):
+            cur = struct.unpack_from(">Q", hdr, 72)[0]
+            struct.pack_into(">Q", hdr, 72, cur | case["setbit"])
+        return bytes(hdr), chunks
+
+    def impl(self, case):
+        from dissect.hypervisor.disk import qcow2 as Q
+        hdr, chunks = self._header(case)
+        fh, data, backing = c01.build_files(case["base"])
+        fh = patched(fh, 0, hdr[:104 if case["base"]["version"] == 2 and False else 112] if False else hdr)
+
+        def f():
+            q = Q.QCow2(fh)
+            return q.read(512)[:8].hex()
+        return self.attempt(f)
+
+    def coq_term(self, case):
+        hdr, _ = self._header(case)
+        g = lambda k: struct.unpack_from(self.FIELDS[k][1], hdr, self.FIELDS[k][0])[0]  # noqa: E731
+        version = g("version")
+        v2 = version == 2
+        inc = 0 if v2 else g("incompatible_features")
+        hl = 72 if v2 else g("header_length")
+        comp = 0 if (v2 or hl <= 104) else g("compression_type")
+        return (f"qcow2_gate {{| q_magic := {g('magic')}; q_version := {version}; q_cluster_bits := {g('cluster_bits')}; "
+                f"q_crypt := {g('crypt_method')}; q_incompat := {inc}; q_compression := {comp}; q_has_zstd := false; "
+                f"q_backing_offset := {g('backing_file_offset')}; q_data_file_given := false; q_backing_given := false |}}")
+
+
+SUITES = {"qcow2": Qcow2Gates(), "vmdk_hosted": VmdkHostedGates(), "vhdx": VhdxGates(), "vdi": VdiGates(), "hds": HdsGates(), "hdd": HddGates(), "hyperv": HypervGates(),
           "envelope": EnvelopeGates(), "text": TextGates(), "vmdk_sparse": VmdkSparseGates()}
